@@ -99,6 +99,20 @@ pub fn run(env: &Env) -> Report {
                 }
             }
             Kind::Structured(_) => {
+                // every key of the number pad that has a character (a second key code for the same character, in another block of
+                // the key-code space) contributes that character exactly like the main-block key
+                for k in KEYS.iter().filter(|k| k.0.starts_with("VC_KP_")) {
+                    if let Some(ch) = k.2 {
+                        for base in ["", "ami", "(", "12"] {
+                            s.type_text(&mut t, base);
+                            let o = s.key(&mut t, k.1, if rng.chance(50) { 0 } else { 1 }, 0);
+                            let txt = format!("{}{}", base, ch);
+                            check(env, &mut rep, opts, &txt, &o, None);
+                            rep.count("number-pad-key");
+                            s.finish(&mut t);
+                        }
+                    }
+                }
                 let n = if env.quick() { 1200 } else { 5000 };
                 let n = if opts.phonetic_suggestion { n / 8 } else { n };
                 for _ in 0..n {
